@@ -20,8 +20,8 @@ RULE = ("model = one TLC state per opcode byte 0..255, laws evaluated on every b
         "byte is a defined opcode + distinct traced words with a defined top byte + distinct traced constructions + valid "
         "instructions in the enumerated part of the sweep (each enumerated word is distinct by construction)")
 
-PROPERTIES_WIP = ['C08']
-MANIFEST_WIP = {
+PROPERTIES = ['C08']
+MANIFEST = {
     'C08': dict(category='model_checking',
                 technique='TLA+ spec Isa (opcode table as data; field layout, reserved bits, Decode, Encode derived bit by bit '
                           'from the format text) model-checked by TLC over all 256 opcode bytes x boundary argument patterns; '
